@@ -59,8 +59,17 @@ func init() {
 		if n <= 0 {
 			ip.ex.endPath("harness-error", "Choice with n<=0")
 		}
-		v := ip.ts.Var(name, 64)
-		ip.ex.Assume(ip.ts.Cmp(OpUlt, v, Const(64, uint64(n))))
+		if n > 65535 {
+			ip.ex.endPath("harness-error", "Choice with n>65535")
+		}
+		cw := 8
+		if n > 256 {
+			cw = 16
+		}
+		v := ip.ts.Var(name, cw)
+		if n < 1<<uint(cw) {
+			ip.ex.Assume(ip.ts.Cmp(OpUlt, v, Const(cw, uint64(n))))
+		}
 		x := ip.ex.Concretize(v, "choice "+name)
 		return Const(64, x)
 	})
